@@ -2,6 +2,40 @@
 """writes MANIFEST.json from the table below (kept in one place so that it stays valid)"""
 import json
 CHECKS = {
+ "C12": dict(
+   text="Partial proof on the loop model of C03 with an environment that may raise at any iteration: for EVERY fault position the recorded "
+        "times and step after the fault are exactly those of the fault-free run stopped after the accepted iterations (loop_fault_prefix), "
+        "the status reports failure (3) or keyboard interrupt (4), the buffers are trimmed, a call that returns normally afterwards reports "
+        "success, and any later call sequence extends the kept prefix monotonically (C03 theorems admit faults). Tied to the code by replay "
+        "of fault scenarios and by exhaustive crash-point enumeration on the real OdeSystem (every rhs evaluation / callback / event "
+        "evaluation of short runs of 6 method families, both directions; prefix bit for bit, cause chaining, resume, reset). Known finding: "
+        "a raising event function leaves the dense piece of the dropped step.",
+   note="Trusted: Lean kernel, standard axioms, harness. Outside the model: integrator-internal state after a fault, dense-output "
+        "container, event evaluation sites (checked by the enumeration on the implementation only).",
+   technique="Lean 4 proof (induction over the fault position) + crash-point enumeration + bit-exact replay",
+   design="5 (C12)"),
+ "C13": dict(
+   text="Partial proof on the loop model: after ANY sequence of integrate calls with any environment (faults, callbacks, reversals), dt "
+        "assignments and resets, reset() yields a time-grid state observationally equal to the freshly constructed system "
+        "(reset_restores, via the invariant that no operation changes t0, tf, the initial step or the first sample); a call made at the "
+        "target changes nothing (at_target_noop). The states, integrator memory, events, dense output and counters are compared on the "
+        "implementation: random op sequences from the property's alphabet, then reset() and re-run vs a fresh system bit for bit; identical "
+        "sequences bitwise; split runs vs single runs at method accuracy; caller's y0/constants untouched.",
+   note="Trusted: Lean kernel, standard axioms, harness. The bitwise clauses about y are measurements on the implementation; the model "
+        "covers the time grid, dt and status.",
+   technique="Lean 4 proof (invariant over arbitrary op lists) + differential op-sequence testing against fresh systems + replay",
+   design="5 (C13)"),
+ "C20": dict(
+   text="Proof about a small Lean model of the counter bookkeeping (increment after the user function returned, finite-difference "
+        "Jacobians evaluate through the counting wrapper, reset zeroes): after any history nfev/njev equal the completed calls / requests "
+        "since the last reset; callback clauses proved on the loop model (assigned dt is stored and requested next, callbacks see the "
+        "recorded step). The substance is the correspondence: DiffRHS op sequences vs the model, independent counters inside the user's "
+        "rhs/Jacobian vs nfev/njev for 12 method configurations x dense x events x direction incl. failures and resets, callback order / "
+        "once-per-step / visibility, and replay of callback-dt scenarios through the loop model.",
+   note="Trusted: Lean kernel, standard axioms, harness. The counter model is deliberately tiny; where evaluations happen inside the "
+        "integrators is not modelled but measured with independent counters.",
+   technique="Lean 4 proof on counter/loop models + independent-counter differential testing",
+   design="5 (C20)"),
  "C04": dict(
    text="Partial proof. Proved over Q on the loop model of C03 for a fixed-step integrator (the oracle that takes every requested step "
         "whole and proposes it again): for every span of any sign pattern and direction, every dt != 0 and any number of steps, every "
